@@ -48,6 +48,14 @@ def resolve(s, L, depth=0):
         if tgt.startswith('&'):
             tgt = tgt[1:].strip('()')          # pointer to a member (ri = &(r->ri_whfast)): ri->x is r.ri_whfast.x
         if w in L and w != 'r' and re.match(r'^[A-Za-z_][\w.\[\]]*$', tgt):
+            # the target may itself start with an alias (p = &particles[i]; particles = r->particles)
+            head = re.match(r'^([A-Za-z_]\w*)(.*)$', tgt)
+            if head and head.group(1) in L and head.group(1) not in ('r', w) and depth < 6:
+                inner = L[head.group(1)].replace(' ', '').strip('()')
+                if inner.startswith('&'):
+                    inner = inner[1:].strip('()')
+                if re.match(r'^[A-Za-z_][\w.\[\]]*$', inner):
+                    tgt = inner + head.group(2)
             return tgt + '.'
         return m.group(0)
     return re.sub(r'(?<![\w.])([A-Za-z_]\w*)\.(?=[A-Za-z_])', rep_alias, s)
